@@ -4,6 +4,7 @@ mod big;
 mod c01;
 mod c04;
 mod crash;
+mod c05;
 mod c07;
 mod c08;
 mod vals;
@@ -35,6 +36,7 @@ fn main() {
     let code = match argv[1].to_ascii_lowercase().as_str() {
         "c01" => c01::main(args),
         "c04" => c04::main(args),
+        "c05" => c05::main(args),
         "c07" => c07::main(args),
         "c08" => c08::main(args),
         "c09" => c09::main(args),
